@@ -1,3 +1,147 @@
-(* C33 — placeholder while the pipeline is brought up *)
-From FH Require Import Model.Base Model.Pipe Model.Listener.
-Example C33_placeholder : chan_cap = 4%N. Proof. reflexivity. Qed.
+(* C33 — In-memory pipes and listener behave like a reliable byte stream.
+   Statements only; proofs live in Proof/PipeProof.v and Proof/ListenerProof.v.
+
+   `reach tr s` : s is reachable in the transition system of ONE DIRECTION of a PipeConns pair by the trace tr —
+   any interleaving of the atomic steps of one writer goroutine, one reader goroutine, Close from anybody,
+   deadline changes and timer firings (Model/Pipe.v).  `preach` is the pair (both directions, shared Close).
+   `hist s` is what the callers have observed so far (completed Write/Read calls with their results).
+   `lreach tr s` : the same for InmemoryListener with any number of concurrent Dial / Accept / Close calls. *)
+From FH Require Import Model.Base Model.Pipe Model.Listener Proof.PipeProof Proof.ListenerProof.
+Open Scope N_scope.
+
+(* ---- the stream: nothing lost, nothing duplicated, order kept, for every interleaving and all sizes ----
+   bytes returned by Reads so far ++ bytes held between the ends (copied into a Read in progress, the reader's
+   current buffer, the queued buffers) = bytes accepted by successful Writes so far.  In particular the bytes
+   read are always a prefix of the bytes written. *)
+Theorem C33_stream_prefix : forall tr s, reach tr s ->
+  read_h (hist s) ++ in_flight s = written_h (hist s) /\
+  exists rest, written_h (hist s) = read_h (hist s) ++ rest.
+Proof. intros tr s R. split; [exact (stream_exact tr s R) | exact (stream_prefix tr s R)]. Qed.
+Print Assumptions C33_stream_prefix.
+
+(* each end of the pair: both directions at once *)
+Theorem C33_stream_prefix_both_ends : forall tr s, preach tr s ->
+  read_h (hist (ab s)) ++ in_flight (ab s) = written_h (hist (ab s)) /\
+  read_h (hist (ba s)) ++ in_flight (ba s) = written_h (hist (ba s)).
+Proof.
+  intros tr s R. destruct (preach_proj tr s R) as [[t1 R1] [t2 R2]].
+  split; [exact (stream_exact t1 _ R1) | exact (stream_exact t2 _ R2)].
+Qed.
+Print Assumptions C33_stream_prefix_both_ends.
+
+(* a Read that returns an error returns no bytes, and no Read returns more than its buffer holds *)
+Theorem C33_read_results_wellformed : forall tr s n d r, reach tr s -> In (EvR n d r) (hist s) ->
+  (r <> ROk -> d = []) /\ lenN d <= n.
+Proof. exact read_events_ok. Qed.
+Print Assumptions C33_read_results_wellformed.
+
+(* ---- Close: bytes already written remain readable, then EOF ----
+   (1) for every interleaving: whenever a Read returned io.EOF, Close had been called, the Read returned no
+       bytes, and every byte successfully written before that moment had already been read;
+   (2) call level, reader's side: while anything is still buffered a Read with a non-empty buffer returns data
+       with a nil error — never EOF, never a timeout, it does not park (whether or not the pipe is closed);
+   (3) call level: once the pipe is closed and nothing is buffered, Read returns io.EOF at once.
+   (2)+(3)+C33_stream_prefix say: after Close the reader gets exactly the remaining written bytes, then EOF.
+   Not proved: that the number of Reads needed is finite (each Read of (2) consumes a byte or a buffer; the
+   measure argument is not mechanised — the harness drains every closed pipe and checks it reaches EOF). *)
+Theorem C33_close_drains_then_eof_partial :
+  (forall tr s later n d earlier, reach tr s -> hist s = later ++ EvR n d REof :: earlier ->
+     stopped s = true /\ d = [] /\ read_h earlier = written_h earlier)
+  /\
+  (forall s soon n, rp s = RIdle -> wp s = WIdle -> n <> 0 -> (cur s <> [] \/ chan s <> []) ->
+     forall s', In s' (exec_read s soon n) ->
+       rp s' = RIdle /\ wp s' = WIdle /\ exists d, hist s' = EvR n d ROk :: hist s)
+  /\
+  (forall s n, rp s = RIdle -> stopped s = true -> n <> 0 -> cur s = [] -> chan s = [] -> rdl s <> DFired ->
+     exists s', exec_read s false n = [s'] /\ hist s' = EvR n [] REof :: hist s).
+Proof.
+  split; [exact eof_means_drained|]. split; [exact read_gets_data|].
+  intros s n H1 H2 H3 H4 H5 H6. eexists. split; [apply eof_when_drained; assumption|reflexivity].
+Qed.
+Print Assumptions C33_close_drains_then_eof_partial.
+
+(* what can happen with a Write racing with Close: it passed its closed-check, Close comes, the reader sees EOF,
+   then the Write succeeds — the reader can then still read those bytes (the stream theorem covers them) *)
+Example C33_ex_write_in_flight_at_close :
+  exists tr s, reach tr s /\ hist s = [EvW [7] false WOk; EvR 4 [] REof] /\ chan s = [[7]].
+Proof.
+  exists [LWStart [7]; LWChkOpen; LClose; LRStart 4; LRTakeDefault; LRStopWake; LRStopEof; LWSendFast].
+  eexists. split; [reflexivity|]. split; reflexivity.
+Qed.
+
+(* ---- writes after Close fail ----
+   every Write call that STARTED when stopCh was already closed returned ErrConnectionClosed (0 bytes: it does
+   not count in written_h), in every interleaving; call level: exactly one outcome, nothing is queued. *)
+Theorem C33_write_after_close_fails :
+  (forall tr s p r, reach tr s -> In (EvW p true r) (hist s) -> r = WClosed)
+  /\
+  (forall s soon p, wp s = WIdle -> stopped s = true ->
+     exists s', exec_write s soon p = [s'] /\ hist s' = EvW p true WClosed :: hist s /\ chan s' = chan s).
+Proof.
+  split; [exact write_after_close|].
+  intros s soon p H1 H2. eexists. split; [apply write_fails_when_closed; assumption|split; reflexivity].
+Qed.
+Print Assumptions C33_write_after_close_fails.
+
+(* the channel never holds more than its capacity (bounded buffering) *)
+Theorem C33_channel_bounded : forall tr s, reach tr s -> lenN (chan s) <= chan_cap.
+Proof. exact chan_bounded. Qed.
+Print Assumptions C33_channel_bounded.
+
+(* ---- listener: every successful Dial is paired with exactly one Accept returning its peer ----
+   In every reachable state (any number of concurrent Dial / Accept / Close calls): if Dial i returned success
+   then exactly one Accept returned pipe i; no pipe is returned by two Accepts; a Dial call has one result. *)
+Theorem C33_dial_accept_paired :
+  (forall tr s i sc, lreach tr s -> In (EvDial i sc true) (lhist s) -> acount i (lhist s) = 1%nat)
+  /\ (forall tr s i, lreach tr s -> (acount i (lhist s) <= 1)%nat)
+  /\ (forall tr s i sc ok, lreach tr s -> In (EvDial i sc ok) (lhist s) -> dp s i = DDone ok).
+Proof. split; [exact dial_paired|]. split; [exact accept_at_most_once|exact dial_event_state]. Qed.
+Print Assumptions C33_dial_accept_paired.
+
+(* the converse direction (every accepted pipe belongs to a successful Dial) holds while the listener is open:
+   the Dial is parked waiting for the acceptance or has returned success ... *)
+Theorem C33_accept_paired_while_open : forall tr s i,
+  lreach tr s -> done s = false -> acount i (lhist s) = 1%nat ->
+  dp s i = DWait1 \/ dp s i = DWait2 \/ dp s i = DDone true.
+Proof. exact accept_paired_while_open. Qed.
+Print Assumptions C33_accept_paired_while_open.
+
+(* ... and is FALSE in general (so "bijection" cannot be claimed): when Close races with an Accept that is between its
+   last done-check and close(c.accepted), Accept returns a connection whose Dial has failed and closed the pipe.
+   The property as stated (successful Dial => exactly one Accept) is not affected. *)
+Theorem C33_full_bijection_refuted :
+  exists tr, match lrun linit tr with
+             | Some s => acount 0 (lhist s) = 1%nat /\ In (EvDial 0 false false) (lhist s) /\ pclosed s 0 = true
+             | None => False end.
+Proof. exact accept_orphan_possible. Qed.
+Print Assumptions C33_full_bijection_refuted.
+
+(* ---- after Close no Dial or Accept succeeds ----
+   s1: any reachable state in which ln.done is closed; a Dial / Accept call that has not started in s1 never
+   returns success, whatever happens afterwards. *)
+Theorem C33_no_success_after_close : forall tr1 s1 tr2 s2,
+  lreach tr1 s1 -> done s1 = true -> lrun s1 tr2 = Some s2 ->
+  (forall i sc, dp s1 i = DFresh -> ~ In (EvDial i sc true) (lhist s2)) /\
+  (forall j sc c, ap s1 j = ANone -> ~ In (EvAccept j sc (Some c)) (lhist s2)).
+Proof.
+  intros tr1 s1 tr2 s2 R Hd Hr. split.
+  - intros i sc Hf. exact (dial_after_close tr1 s1 tr2 s2 i sc R Hd Hf Hr).
+  - intros j sc c Hf. exact (accept_after_close tr1 s1 tr2 s2 j sc c R Hd Hf Hr).
+Qed.
+Print Assumptions C33_no_success_after_close.
+
+(* non-vacuity: a transfer with a partial read, Close with data pending, EOF after the data *)
+Example C33_ex_transfer :
+  exists s, run dinit [LWStart [1;2;3]; LWChkOpen; LWSendFast; LRStart 2; LRTakeFast; LClose;
+                       LWStart [9]; LWChkClosed; LRStart 5; LRTakeDefault;
+                       LRStart 5; LRTakeDefault; LRStopWake; LRStopEof] = Some s /\
+            hist s = [EvR 5 [] REof; EvR 5 [3] ROk; EvW [9] true WClosed; EvR 2 [1;2] ROk; EvW [1;2;3] false WOk].
+Proof. eexists. split; reflexivity. Qed.
+(* non-vacuity: Dial 0 and Accept 0 pair up, then Close, then Dial 1 fails *)
+Example C33_ex_listener :
+  match lrun linit [LDStart 0; LDLockOpen 0; LDChk2Open 0; LDSendOk 0; LDWait1Default 0;
+                    LAStart 0; LAChkOpen 0; LASelTake 0; LAGotOpen 0; LAMark 0; LDWait2Acc 0;
+                    LCStart 0; LCLockFirst 0; LCDrainEnd 0; LDStart 1; LDLockClosed 1] with
+  | Some s => lhist s = [EvDial 1 true false; EvClose 0 true; EvDial 0 false true; EvAccept 0 false (Some 0)]
+  | None => False end.
+Proof. vm_compute. reflexivity. Qed.
